@@ -225,6 +225,10 @@ def oracle(out: Dict[str, Any]) -> Optional[str]:
         return f"files referenced by retained snapshots were deleted by the collector: {out['final']['missing'][:3]}"
     for n, (st, d) in out["outcomes"].items():
         if st != "ok" and not (out.get("delayed_flip") and n == "A0" and "AmbiguousCommitError" in d):
+            if n in ("G", "H") and d.startswith("GarbageCollectionAborted:"):
+                # a collection that gives up (e.g. the pointer moved between its two resolutions of it, repair d28ca28)
+                # is the fail-closed outcome: the property is about what a run DELETES, and nothing is missing (above)
+                continue
             return f"actor {n} raised: {d}"
     return None
 
@@ -500,7 +504,7 @@ def run(ctx) -> None:
     ctx.allow_axioms([])
     quick = ctx.tier == "quick"
     exprs, metas, bad = [], [], []
-    total = judged = 0
+    total = judged = gc_gave_up = 0
     for ti, txns in enumerate(TXSETS):
         runs = list(explore(ctx, txns, 5000, 2 if quick else 3, (40 if ti < 2 else 12) if quick else 900))
         if ti == 0 or not quick:
@@ -522,6 +526,7 @@ def run(ctx) -> None:
             w = out["gc_window"]
             in_proviso = "end" in w and w["end"] - w["start"] < out.get("grace", GRACE)
             judged += 1 if in_proviso else 0
+            gc_gave_up += 1 if any(st != "ok" and n in ("G", "H") for n, (st, _d) in out["outcomes"].items()) else 0
             why = oracle(out)
             if why:
                 ctx.violation(f"gc-race:{'+'.join(t['kind'] for t in txns)}", why,
@@ -536,6 +541,7 @@ def run(ctx) -> None:
             metas.append((txns, dev, out, evs))
     ctx.stats["schedules"] = total
     ctx.stats["runs_within_proviso"] = judged
+    ctx.stats["runs_in_which_a_collection_gave_up"] = gc_gave_up     # GarbageCollectionAborted (pointer moved under it): fail closed
     try:
         vals = coqbuild.coq_eval(REQ, exprs, chunk=60)
     except RuntimeError as e:
